@@ -99,6 +99,20 @@ def std_ffl(w, fid):
     return f
 
 
+class FalsyCallable:
+    """a callback given as a callable OBJECT whose truth value is False (e.g. a callable lookup table that is empty: it
+    defines __len__).  "Was a callback given?" is a question about None, not about truth."""
+
+    def __init__(self, fn):
+        self.fn = fn
+
+    def __call__(self, *a):
+        return self.fn(*a)
+
+    def __len__(self):
+        return 0
+
+
 def std_fres(w, fid):
     """ff_result twins of TravCheck.std_fres: 0 all, 1 none, 2 even ids (None-safe)"""
     if fid is None:
@@ -111,7 +125,7 @@ def std_fres(w, fid):
             return False
         i = w.id_of(v)
         return i is not None and i % 2 == 0
-    return f
+    return FalsyCallable(f) if fid == 2 else f
 
 
 def outcome_of(fn):
